@@ -1108,32 +1108,28 @@ end KinModel.C13.Body
 
 namespace KinModel.C13.Body
 
-/-! ### `touched`: a visit that set no default anywhere forwards the value as it is -/
+/-! ### `touched`: the `DefaultsSet` callback ran iff the accepted value changed -/
 
 theorem touched_leaf (c : Ctx) (a : Attr) (ty : Ty) (v : J) : touched c (.leaf a ty) v = false := by rw [touched]
 
 theorem touched_obj_obj (c : Ctx) (a : Attr) (req props addl kvs) :
     touched c (.obj a req props addl) (.obj kvs) =
-      ((c.setDefaults && (defaulted c props kvs).length != kvs.length) ||
-        touchedProps c (stopKey c addl props (defaulted c props kvs)) props (defaulted c props kvs)) := by
+      ((c.setDefaults && (defaulted c props kvs).length != kvs.length) || touchedProps c props (defaulted c props kvs)) := by
   rw [touched]
 
 theorem touched_arr_arr (c : Ctx) (a : Attr) (items xs) :
-    touched c (.arr a items) (.arr xs) =
-      anyUntil (fun x => touched c items x) (fun x => (visit c items x).isNone && !c.multi) xs := by
+    touched c (.arr a items) (.arr xs) = anyItem (fun x => touched c items x) xs := by
   rw [touched]
 
 theorem touched_comb (c : Ctx) (a : Attr) (k : Kind) (bs : List S) (v : J) :
     touched c (.comb a k bs) v =
       (if v.isNull then false
        else match k with
-        | .oneOf => touchedEach c bs v
-        | .anyOf => touchedUntilMatch c bs v
-        | .allOf => touchedChain c bs v) := by
+        | .allOf => touchedChain c bs v
+        | _ => touchedMatched c bs v) := by
   rw [touched.eq_def]
   cases v <;> rfl
 
-/-- with default-setting skipped nothing is ever touched -/
 theorem defaulted_length (c : Ctx) (props : List (String × S)) (kvs : List (String × J))
     (hn : keysNodup (props.map (·.1)) = true) (h : (defaulted c props kvs).length = kvs.length) :
     defaulted c props kvs = kvs := by
@@ -1146,32 +1142,10 @@ theorem defaulted_length (c : Ctx) (props : List (String × S)) (kvs : List (Str
     rw [List.length_eq_zero_iff.mp this]; simp
   · rfl
 
-theorem firstUnknown_none (props : List (String × S)) : ∀ (kvs : List (String × J)),
-    (∀ kv ∈ kvs, (lookup kv.1 props).isSome = true) → firstUnknown props kvs = none
-  | [], _ => rfl
-  | (k, x) :: r, h => by
-    simp only [firstUnknown, firstUnknown_none props r (fun kv hm => h kv (by simp [hm]))]
-    simp [h (k, x) (by simp)]
-
-theorem stopKey_none_of_checks (c : Ctx) (req props addl) (kvs1 : List (String × J))
-    (h : objChecks c req props addl kvs1 = true) : stopKey c addl props kvs1 = none := by
-  unfold stopKey
-  cases ha : addl with
-  | true => simp
-  | false =>
-    cases hm : c.multi with
-    | true => simp
-    | false =>
-      simp only [Bool.or_self, Bool.false_eq_true, ↓reduceIte]
-      apply firstUnknown_none
-      unfold objChecks addlOK at h
-      simp only [Bool.and_eq_true, List.all_eq_true, ha, Bool.false_or] at h
-      exact h.1.2
-
-/-- members that are all accepted and untouched stay as they are -/
+/-- members that are all untouched stay as they are -/
 theorem visitProps_untouched (c : Ctx) : ∀ (ps : List (String × S)),
     (∀ p ∈ ps, ∀ x x', visit c p.2 x = some x' → touched c p.2 x = false → x' = x) →
-    ∀ kvs kvs', visitProps c ps kvs = some kvs' → touchedProps c none ps kvs = false → kvs' = kvs
+    ∀ kvs kvs', visitProps c ps kvs = some kvs' → touchedProps c ps kvs = false → kvs' = kvs
   | [], _, kvs, kvs', h, _ => by simp [visitProps] at h; exact h.symm
   | (k, s) :: ps, hp, kvs, kvs', h, ht => by
     have hps : ∀ p ∈ ps, ∀ x x', visit c p.2 x = some x' → touched c p.2 x = false → x' = x :=
@@ -1188,15 +1162,14 @@ theorem visitProps_untouched (c : Ctx) : ∀ (ps : List (String × S)),
       | none => simp [hv] at h
       | some x' =>
         simp only [hv, Option.bind_some] at h
-        simp only [beyond, Bool.false_eq_true, ↓reduceIte, hv, Option.isNone_some, Bool.false_and, Bool.or_eq_false_iff] at ht
+        simp only [hv, Bool.or_eq_false_iff] at ht
         have hx : x' = x := hp (k, s) (by simp) x x' hv ht.1
         subst hx
-        rw [setKey_noop k x' kvs hl] at h
+        rw [setKey_noop k x' kvs hl] at h ht
         exact visitProps_untouched c ps hps kvs kvs' h ht.2
 
-theorem mapOpt_untouched (f : J → Option J) (t ends : J → Bool) (hf : ∀ x y, f x = some y → t x = false → y = x)
-    (he : ∀ x, ends x = true → f x = none) :
-    ∀ (xs ys : List J), mapOpt f xs = some ys → anyUntil t ends xs = false → ys = xs
+theorem mapOpt_untouched (f : J → Option J) (t : J → Bool) (hf : ∀ x y, f x = some y → t x = false → y = x) :
+    ∀ (xs ys : List J), mapOpt f xs = some ys → anyItem t xs = false → ys = xs
   | [], ys, h, _ => by simp [mapOpt] at h; exact h
   | x :: xs, ys, h, ht => by
     simp only [mapOpt] at h
@@ -1207,13 +1180,8 @@ theorem mapOpt_untouched (f : J → Option J) (t ends : J → Bool) (hf : ∀ x 
       | none => simp [hx, hxs] at h
       | some ys' =>
         simp [hx, hxs] at h; subst h
-        simp only [anyUntil, Bool.or_eq_false_iff] at ht
-        have hne : ends x = false := by
-          cases hh : ends x with
-          | false => rfl
-          | true => rw [he x hh] at hx; cases hx
-        simp only [hne, Bool.false_eq_true, ↓reduceIte] at ht
-        rw [hf x y hx ht.1, mapOpt_untouched f t ends hf he xs ys' hxs ht.2]
+        simp only [anyItem, Bool.or_eq_false_iff] at ht
+        rw [hf x y hx ht.1, mapOpt_untouched f t hf xs ys' hxs ht.2]
 
 theorem visitAll_untouched (c : Ctx) : ∀ (bs : List S),
     (∀ b ∈ bs, ∀ x x', visit c b x = some x' → touched c b x = false → x' = x) →
@@ -1231,25 +1199,27 @@ theorem visitAll_untouched (c : Ctx) : ∀ (bs : List S),
       subst e
       exact visitAll_untouched c bs (fun b' hm => hb b' (by simp [hm])) v1 v' h ht.2
 
-theorem touchedEach_false (c : Ctx) (v : J) : ∀ (bs : List S), touchedEach c bs v = false → ∀ b ∈ bs, touched c b v = false
-  | [], _, b, hb => by cases hb
-  | b0 :: bs, h, b, hb => by
-    simp only [touchedEach, Bool.or_eq_false_iff] at h
-    cases hb with
-    | head => exact h.1
-    | tail _ hm => exact touchedEach_false c v bs h.2 b hm
+/-- the branch that is run again is the first accepting one -/
+theorem touchedMatched_first (c : Ctx) (v : J) : ∀ (pre : List S) (b : S) (post : List S) (x : J),
+    (∀ p ∈ pre, visit c p v = none) → visit c b v = some x → touchedMatched c (pre ++ b :: post) v = touched c b v
+  | [], b, post, x, _, hv => by simp [touchedMatched, hv]
+  | p :: pre, b, post, x, hp, hv => by
+    simp only [List.cons_append, touchedMatched, hp p (by simp), Option.isSome_none, Bool.false_eq_true, ↓reduceIte]
+    exact touchedMatched_first c v pre b post x (fun q hq => hp q (by simp [hq])) hv
 
-/-- up to and including the first accepting branch -/
-theorem touchedUntilMatch_false (c : Ctx) (v : J) : ∀ (pre : List S) (b : S) (post : List S),
-    (∀ p ∈ pre, visit c p v = none) → touchedUntilMatch c (pre ++ b :: post) v = false → touched c b v = false
-  | [], b, post, _, h => by
-    simp only [List.nil_append, touchedUntilMatch, Bool.or_eq_false_iff] at h; exact h.1
-  | p :: pre, b, post, hp, h => by
-    simp only [List.cons_append, touchedUntilMatch, Bool.or_eq_false_iff, hp p (by simp), Option.isSome_none,
-      Bool.false_eq_true, ↓reduceIte] at h
-    exact touchedUntilMatch_false c v pre b post (fun q hq => hp q (by simp [hq])) h.2
+/-- the branch an accepted anyOf/oneOf node forwards through, with everything before it rejecting -/
+theorem comb_matched (c : Ctx) (k : Kind) (hk : k ≠ .allOf) (bs : List S) (v v' : J) (hp : pick k (visitMatches c bs v) = some v') :
+    ∃ pre b post, bs = pre ++ b :: post ∧ (∀ p ∈ pre, visit c p v = none) ∧ visit c b v = some v' := by
+  cases k with
+  | allOf => exact absurd rfl hk
+  | anyOf =>
+    obtain ⟨tl, htl⟩ := (pick_anyOf _ _).mp hp
+    exact visitMatches_head c v v' bs tl htl
+  | oneOf =>
+    obtain ⟨pre, b, post, e, hpre, hv, _⟩ := visitMatches_single c v v' bs ((pick_oneOf _ _).mp hp)
+    exact ⟨pre, b, post, e, hpre, hv⟩
 
-/-- **A visit that ran the `DefaultsSet` callback nowhere forwards the value as it is.** -/
+/-- **A visit in which the `DefaultsSet` callback did not run forwards the value as it is.** -/
 theorem untouched_unchanged (c : Ctx) : ∀ s, wf s = true → ∀ v v', visit c s v = some v' → touched c s v = false → v' = v := by
   intro s
   induction s using S.induct with
@@ -1269,7 +1239,7 @@ theorem untouched_unchanged (c : Ctx) : ∀ s, wf s = true → ∀ v v', visit c
         | none => simp [hv] at h
         | some kvs' =>
           simp [hv] at h; subst h
-          obtain ⟨e1, e2⟩ := objPre_some c req props addl kvs kvs1 hpre
+          obtain ⟨e1, _⟩ := objPre_some c req props addl kvs kvs1 hpre
           have hd : defaulted c props kvs = kvs := by
             cases hc : c.setDefaults with
             | false => simp [defaulted, hc]
@@ -1279,7 +1249,7 @@ theorem untouched_unchanged (c : Ctx) : ∀ s, wf s = true → ∀ v v', visit c
               simp only [hc, Bool.true_and, bne_eq_false_iff_eq] at this
               exact this
           rw [hd] at e1; subst e1
-          rw [hd, stopKey_none_of_checks c req props addl kvs1 e2] at ht
+          rw [hd] at ht
           rw [visitProps_untouched c props (fun p hp => ih p hp (wfProps_true props hw.2 p hp)) kvs1 kvs' hv ht.2]
     | null => rw [visit_obj_null] at h; split at h <;> cases h; rfl
     | bool b => rw [visit_obj_other _ _ _ _ _ _ rfl (by simp)] at h; cases h
@@ -1297,8 +1267,7 @@ theorem untouched_unchanged (c : Ctx) : ∀ s, wf s = true → ∀ v v', visit c
       | none => simp [hm] at h
       | some ys =>
         simp [hm] at h; subst h
-        rw [mapOpt_untouched _ _ _ (fun x y hxy => ih hw x y hxy) (fun x hx => by
-          simp only [Bool.and_eq_true, Option.isNone_iff_eq_none] at hx; exact hx.1) xs ys hm ht]
+        rw [mapOpt_untouched _ _ (fun x y hxy => ih hw x y hxy) xs ys hm ht]
     | null => rw [visit_arr_null] at h; split at h <;> cases h; rfl
     | bool b => rw [visit_arr_other _ _ _ _ rfl (by simp)] at h; cases h
     | num n => rw [visit_arr_other _ _ _ _ rfl (by simp)] at h; cases h
@@ -1309,37 +1278,310 @@ theorem untouched_unchanged (c : Ctx) : ∀ s, wf s = true → ∀ v v', visit c
     simp only [wf] at hw
     have hb : ∀ b ∈ bs, ∀ x x', visit c b x = some x' → touched c b x = false → x' = x :=
       fun b hm => ih b hm (wfList_true bs hw b hm)
+    have hnull := visit_isNull c (.comb a k bs) v v' h
     rw [touched_comb] at ht
     rw [visit_comb] at h
-    rcases combRes_some h with e | ⟨_, hk, hall⟩ | ⟨_, hk, hp⟩
-    · exact e
-    · subst hk
-      cases hn : v.isNull with
-      | true =>
-        have := visit_isNull c (.comb a .allOf bs) v v' (by rw [visit_comb]; exact h)
-        cases v <;> simp [J.isNull] at hn
-        cases v' <;> simp [J.isNull] at this; rfl
-      | false =>
-        simp only [hn, Bool.false_eq_true, ↓reduceIte] at ht
-        exact visitAll_untouched c bs hb v v' hall ht
-    · cases hn : v.isNull with
-      | true =>
-        have := visit_isNull c (.comb a k bs) v v' (by rw [visit_comb]; exact h)
-        cases v <;> simp [J.isNull] at hn
-        cases v' <;> simp [J.isNull] at this; rfl
-      | false =>
-        simp only [hn, Bool.false_eq_true, ↓reduceIte] at ht
-        cases k with
-        | allOf => exact absurd rfl hk
-        | anyOf =>
-          simp only at ht
-          obtain ⟨tl, htl⟩ := (pick_anyOf _ _).mp hp
-          obtain ⟨pre, b, post, e, hpre, hv⟩ := visitMatches_head c v v' bs tl htl
-          subst e
-          exact hb b (by simp) v v' hv (touchedUntilMatch_false c v pre b post hpre ht)
-        | oneOf =>
-          simp only at ht
-          obtain ⟨b', hb', hv⟩ := (mem_visitMatches c v v' bs).mp (pick_mem _ _ _ hp)
-          exact hb b' hb' v v' hv (touchedEach_false c v bs ht b' hb')
+    cases hn : v.isNull with
+    | true =>
+      rw [hn] at hnull
+      cases v <;> simp [J.isNull] at hn
+      cases v' <;> simp [J.isNull] at hnull; rfl
+    | false =>
+      simp only [hn, Bool.false_eq_true, ↓reduceIte] at ht
+      rcases combRes_some h with e | ⟨_, hk, hall⟩ | ⟨_, hk, hp⟩
+      · exact e
+      · subst hk; exact visitAll_untouched c bs hb v v' hall ht
+      · obtain ⟨pre, b, post, e, hpre, hv⟩ := comb_matched c k hk bs v v' hp
+        subst e
+        have htm : touchedMatched c (pre ++ b :: post) v = false := by
+          cases k with
+          | allOf => exact absurd rfl hk
+          | anyOf => exact ht
+          | oneOf => exact ht
+        rw [touchedMatched_first c v pre b post v' hpre hv] at htm
+        exact hb b (by simp) v v' hv htm
+
+/-! ### … and a visit in which it ran makes the value strictly bigger -/
+
+theorem J.size_arr (xs : List J) : (J.arr xs).size = 1 + sizeList xs := by rw [J.size]
+theorem J.size_obj (kvs : List (String × J)) : (J.obj kvs).size = 1 + sizeKvs kvs := by rw [J.size]
+
+theorem J.size_pos (v : J) : 0 < v.size := by
+  cases v with
+  | arr xs => rw [J.size_arr]; omega
+  | obj kvs => rw [J.size_obj]; omega
+  | null => rw [J.size.eq_def]; decide
+  | bool b => rw [J.size.eq_def]; simp
+  | num n => rw [J.size.eq_def]; simp
+  | str t => rw [J.size.eq_def]; simp
+
+theorem sizeKvs_append (a b : List (String × J)) : sizeKvs (a ++ b) = sizeKvs a + sizeKvs b := by
+  induction a with
+  | nil => simp [sizeKvs]
+  | cons kv r ih => obtain ⟨k, x⟩ := kv; simp only [List.cons_append, sizeKvs, ih]; omega
+
+theorem sizeKvs_setKey (k : String) (x x' : J) : ∀ (kvs : List (String × J)), lookup k kvs = some x →
+    sizeKvs (setKey k x' kvs) + x.size = sizeKvs kvs + x'.size
+  | [], h => by simp [lookup] at h
+  | (k2, y) :: r, h => by
+    simp only [lookup] at h
+    simp only [setKey]
+    split at h
+    · rename_i e; cases h; subst e; simp only [↓reduceIte, sizeKvs]; omega
+    · rename_i e; simp only [e, ↓reduceIte, sizeKvs]; have := sizeKvs_setKey k x x' r h; omega
+
+theorem injectStep_grows (c : Ctx) (k : String) (a : Attr) (kvs : List (String × J)) :
+    kvs.length ≤ (injectStep c k a kvs).length ∧
+    sizeKvs kvs + ((injectStep c k a kvs).length - kvs.length) ≤ sizeKvs (injectStep c k a kvs) := by
+  unfold injectStep
+  cases hl : lookup k kvs with
+  | some x => simp [slotEmpty]
+  | none =>
+    simp only [slotEmpty, ↓reduceIte]
+    cases hd : dfltFor c a with
+    | none => simp
+    | some d =>
+      simp only
+      rw [setKey_absent k d kvs hl, sizeKvs_append]
+      have := J.size_pos d
+      simp [sizeKvs]; omega
+
+theorem injectDefaults_grows (c : Ctx) : ∀ (ps : List (String × S)) (kvs : List (String × J)),
+    kvs.length ≤ (injectDefaults c ps kvs).length ∧
+    sizeKvs kvs + ((injectDefaults c ps kvs).length - kvs.length) ≤ sizeKvs (injectDefaults c ps kvs)
+  | [], kvs => by simp [injectDefaults]
+  | (k, s) :: ps, kvs => by
+    simp only [injectDefaults]
+    have h1 := injectStep_grows c k s.attr kvs
+    have h2 := injectDefaults_grows c ps (injectStep c k s.attr kvs)
+    omega
+
+theorem defaulted_grows (c : Ctx) (props : List (String × S)) (kvs : List (String × J)) :
+    kvs.length ≤ (defaulted c props kvs).length ∧
+    sizeKvs kvs + ((defaulted c props kvs).length - kvs.length) ≤ sizeKvs (defaulted c props kvs) := by
+  unfold defaulted
+  split
+  · exact injectDefaults_grows c props kvs
+  · simp
+
+def sizeLe (v v' : J) : Prop := v.size ≤ v'.size
+
+theorem all2_sizeLe : ∀ (xs ys : List J), All2 sizeLe xs ys → sizeList xs ≤ sizeList ys
+  | _, _, .nil => Nat.le_refl _
+  | _, _, .cons h t => by
+    simp only [sizeList]
+    have := all2_sizeLe _ _ t
+    unfold sizeLe at h
+    omega
+
+theorem relOK_sizeLe (c : Ctx) : RelOK c sizeLe where
+  refl _ := Nat.le_refl _
+  trans _ _ _ h1 h2 := Nat.le_trans h1 h2
+  arr xs ys h := by unfold sizeLe; rw [J.size_arr, J.size_arr]; have := all2_sizeLe xs ys h; omega
+  set k x x' kvs hl hx := by
+    unfold sizeLe at *
+    rw [J.size_obj, J.size_obj]
+    have := sizeKvs_setKey k x x' kvs hl
+    omega
+  pre req props addl kvs kvs1 hp := by
+    unfold sizeLe
+    rw [J.size_obj, J.size_obj, (objPre_some c req props addl kvs kvs1 hp).1]
+    have := defaulted_grows c props kvs
+    omega
+
+/-- an accepted visit never makes the value smaller -/
+theorem visit_size_le (c : Ctx) (s : S) (v v' : J) (h : visit c s v = some v') : v.size ≤ v'.size :=
+  visit_rel (relOK_sizeLe c) s v v' h
+
+theorem visitProps_size_le (c : Ctx) (ps : List (String × S)) (kvs kvs' : List (String × J))
+    (h : visitProps c ps kvs = some kvs') : sizeKvs kvs ≤ sizeKvs kvs' := by
+  have := visitProps_rel (relOK_sizeLe c) ps (fun p _ x x' hv => visit_size_le c p.2 x x' hv) kvs kvs' h
+  unfold sizeLe at this
+  rw [J.size_obj, J.size_obj] at this
+  omega
+
+theorem visitAll_size_le (c : Ctx) (bs : List S) (v v' : J) (h : visitAll c bs v = some v') : v.size ≤ v'.size :=
+  visitAll_rel (relOK_sizeLe c) bs (fun b _ x x' hv => visit_size_le c b x x' hv) v v' h
+
+theorem visitProps_touched_grows (c : Ctx) : ∀ (ps : List (String × S)),
+    (∀ p ∈ ps, ∀ x x', visit c p.2 x = some x' → touched c p.2 x = true → x.size < x'.size) →
+    ∀ kvs kvs', visitProps c ps kvs = some kvs' → touchedProps c ps kvs = true → sizeKvs kvs < sizeKvs kvs'
+  | [], _, kvs, kvs', _, ht => by simp [touchedProps] at ht
+  | (k, s) :: ps, hp, kvs, kvs', h, ht => by
+    have hps : ∀ p ∈ ps, ∀ x x', visit c p.2 x = some x' → touched c p.2 x = true → x.size < x'.size :=
+      fun p hm => hp p (by simp [hm])
+    simp only [visitProps] at h
+    simp only [touchedProps] at ht
+    cases hl : lookup k kvs with
+    | none =>
+      simp only [hl] at h ht
+      exact visitProps_touched_grows c ps hps kvs kvs' h ht
+    | some x =>
+      simp only [hl] at h ht
+      cases hv : visit c s x with
+      | none => simp [hv] at h
+      | some x' =>
+        simp only [hv, Option.bind_some] at h
+        simp only [hv, Bool.or_eq_true] at ht
+        have hset := sizeKvs_setKey k x x' kvs hl
+        have hle := visit_size_le c s x x' hv
+        have hrest := visitProps_size_le c ps _ kvs' h
+        rcases ht with ht | ht
+        · have := hp (k, s) (by simp) x x' hv ht
+          omega
+        · have := visitProps_touched_grows c ps hps _ kvs' h ht
+          omega
+
+theorem mapOpt_touched_grows (f : J → Option J) (t : J → Bool) (hle : ∀ x y, f x = some y → x.size ≤ y.size)
+    (hlt : ∀ x y, f x = some y → t x = true → x.size < y.size) :
+    ∀ (xs ys : List J), mapOpt f xs = some ys → (sizeList xs ≤ sizeList ys ∧ (anyItem t xs = true → sizeList xs < sizeList ys))
+  | [], ys, h => by simp [mapOpt] at h; subst h; simp [anyItem]
+  | x :: xs, ys, h => by
+    simp only [mapOpt] at h
+    cases hx : f x with
+    | none => simp [hx] at h
+    | some y =>
+      cases hxs : mapOpt f xs with
+      | none => simp [hx, hxs] at h
+      | some ys' =>
+        simp [hx, hxs] at h; subst h
+        obtain ⟨i1, i2⟩ := mapOpt_touched_grows f t hle hlt xs ys' hxs
+        have h1 := hle x y hx
+        simp only [sizeList, anyItem, Bool.or_eq_true]
+        refine ⟨by omega, ?_⟩
+        rintro (ht | ht)
+        · have := hlt x y hx ht; omega
+        · have := i2 ht; omega
+
+theorem visitAll_touched_grows (c : Ctx) : ∀ (bs : List S),
+    (∀ b ∈ bs, ∀ x x', visit c b x = some x' → touched c b x = true → x.size < x'.size) →
+    ∀ v v', visitAll c bs v = some v' → touchedChain c bs v = true → v.size < v'.size
+  | [], _, v, v', _, ht => by simp [touchedChain] at ht
+  | b :: bs, hb, v, v', h, ht => by
+    simp only [visitAll] at h
+    simp only [touchedChain, Bool.or_eq_true] at ht
+    cases hv : visit c b v with
+    | none => simp [hv] at h
+    | some v1 =>
+      simp only [hv, Option.bind_some] at h
+      simp only [hv] at ht
+      have h1 := visit_size_le c b v v1 hv
+      have h2 := visitAll_size_le c bs v1 v' h
+      rcases ht with ht | ht
+      · have := hb b (by simp) v v1 hv ht; omega
+      · have := visitAll_touched_grows c bs (fun b' hm => hb b' (by simp [hm])) v1 v' h ht; omega
+
+/-- **A visit in which the `DefaultsSet` callback ran forwards a strictly bigger value.** -/
+theorem touched_grows (c : Ctx) : ∀ s v v', visit c s v = some v' → touched c s v = true → v.size < v'.size := by
+  intro s
+  induction s using S.induct with
+  | leaf a ty => intro v v' _ ht; rw [touched_leaf] at ht; cases ht
+  | obj a req props addl ih =>
+    intro v v' h ht
+    cases v with
+    | obj kvs =>
+      rw [visit_obj_obj] at h
+      rw [touched_obj_obj, Bool.or_eq_true] at ht
+      cases hpre : objPre c req props addl kvs with
+      | none => simp [hpre] at h
+      | some kvs1 =>
+        simp only [hpre, Option.bind_some] at h
+        cases hv : visitProps c props kvs1 with
+        | none => simp [hv] at h
+        | some kvs' =>
+          simp [hv] at h; subst h
+          obtain ⟨e1, _⟩ := objPre_some c req props addl kvs kvs1 hpre
+          subst e1
+          rw [J.size_obj, J.size_obj]
+          have hg := defaulted_grows c props kvs
+          have hle := visitProps_size_le c props _ kvs' hv
+          rcases ht with ht | ht
+          · simp only [Bool.and_eq_true, bne_iff_ne, ne_eq] at ht
+            have := ht.2
+            omega
+          · have := visitProps_touched_grows c props ih _ kvs' hv ht
+            omega
+    | null => rw [touched.eq_def] at ht; cases ht
+    | bool b => rw [touched.eq_def] at ht; cases ht
+    | num n => rw [touched.eq_def] at ht; cases ht
+    | str t => rw [touched.eq_def] at ht; cases ht
+    | arr xs => rw [touched.eq_def] at ht; cases ht
+  | arr a items ih =>
+    intro v v' h ht
+    cases v with
+    | arr xs =>
+      rw [visit_arr_arr] at h
+      rw [touched_arr_arr] at ht
+      cases hm : mapOpt (fun x => visit c items x) xs with
+      | none => simp [hm] at h
+      | some ys =>
+        simp [hm] at h; subst h
+        rw [J.size_arr, J.size_arr]
+        have := (mapOpt_touched_grows _ _ (fun x y hxy => visit_size_le c items x y hxy) (fun x y hxy => ih x y hxy) xs ys hm).2 ht
+        omega
+    | null => rw [touched.eq_def] at ht; cases ht
+    | bool b => rw [touched.eq_def] at ht; cases ht
+    | num n => rw [touched.eq_def] at ht; cases ht
+    | str t => rw [touched.eq_def] at ht; cases ht
+    | obj kvs => rw [touched.eq_def] at ht; cases ht
+  | comb a k bs ih =>
+    intro v v' h ht
+    rw [touched_comb] at ht
+    rw [visit_comb] at h
+    cases hn : v.isNull with
+    | true => simp [hn] at ht
+    | false =>
+      simp only [hn, Bool.false_eq_true, ↓reduceIte] at ht
+      rcases combRes_some h with e | ⟨he, hk, hall⟩ | ⟨he, hk, hp⟩
+      · -- the node answered with the value itself: null at a nullable node (excluded) or no branches
+        subst e
+        exfalso
+        unfold combRes at h
+        simp only [hn, Bool.false_and, Bool.false_eq_true, ↓reduceIte] at h
+        cases hbs : bs with
+        | nil => subst hbs; cases k <;> simp [touchedChain, touchedMatched] at ht
+        | cons b r =>
+          subst hbs
+          simp only [List.isEmpty_cons, Bool.false_eq_true, ↓reduceIte] at h
+          -- a branch forwarded the value unchanged although it was touched: impossible by the induction hypothesis
+          cases k with
+          | allOf =>
+            simp only at h ht
+            have := visitAll_touched_grows c (b :: r) ih v' v' h ht
+            omega
+          | anyOf =>
+            simp only at h ht
+            obtain ⟨pre, b', post, e, hpre, hv⟩ := comb_matched c .anyOf (by simp) (b :: r) v' v' h
+            rw [e, touchedMatched_first c v' pre b' post v' hpre hv] at ht
+            have := ih b' (by rw [e]; simp) v' v' hv ht
+            omega
+          | oneOf =>
+            simp only at h ht
+            obtain ⟨pre, b', post, e, hpre, hv⟩ := comb_matched c .oneOf (by simp) (b :: r) v' v' h
+            rw [e, touchedMatched_first c v' pre b' post v' hpre hv] at ht
+            have := ih b' (by rw [e]; simp) v' v' hv ht
+            omega
+      · subst hk; exact visitAll_touched_grows c bs ih v v' hall ht
+      · obtain ⟨pre, b, post, e, hpre, hv⟩ := comb_matched c k hk bs v v' hp
+        subst e
+        have htm : touchedMatched c (pre ++ b :: post) v = true := by
+          cases k with
+          | allOf => exact absurd rfl hk
+          | anyOf => exact ht
+          | oneOf => exact ht
+        rw [touchedMatched_first c v pre b post v' hpre hv] at htm
+        exact ih b (by simp) v v' hv htm
+
+/-- **The callback ran iff the forwarded value differs from the received one.** -/
+theorem touched_iff_changed (c : Ctx) (s : S) (hw : wf s = true) (v v' : J) (h : visit c s v = some v') :
+    touched c s v = true ↔ v' ≠ v := by
+  constructor
+  · intro ht e
+    have := touched_grows c s v v' h ht
+    rw [e] at this; omega
+  · intro hne
+    cases ht : touched c s v with
+    | true => rfl
+    | false => exact absurd (untouched_unchanged c s hw v v' h ht) hne
 
 end KinModel.C13.Body
